@@ -126,6 +126,10 @@ fn has_dot(t: &[char]) -> bool {
 /// Standard (DESIGN.md section 9, F-C07-1..11); by mechanism.  0 = not known.
 /// The Coq version is Model/KnownC07.v `known_c07`; the two are compared on every differential case.
 fn known_c07(u: &Url, setter: &str, v: &str) -> u32 {
+    // 0xff = the accessors panic on this record (only reachable when a setter has corrupted it)
+    std::panic::catch_unwind(std::panic::AssertUnwindSafe(|| known_c07_inner(u, setter, v))).unwrap_or(0xff)
+}
+fn known_c07_inner(u: &Url, setter: &str, v: &str) -> u32 {
     let scheme = u.scheme();
     let file = scheme == "file";
     let special = is_special_scheme(scheme);
@@ -243,6 +247,10 @@ fn parse_case07(req: &str) -> Option<(String, Vec<(&'static str, String)>)> {
 }
 
 fn shape(u: &Url) -> String {
+    // a record corrupted by a (mutated) setter can make the accessors panic
+    std::panic::catch_unwind(std::panic::AssertUnwindSafe(|| shape_inner(u))).unwrap_or_else(|_| "broken".into())
+}
+fn shape_inner(u: &Url) -> String {
     format!(
         "{}{}{}{}",
         if u.cannot_be_a_base() { "o" } else if u.scheme() == "file" { "f" } else if is_special_scheme(u.scheme()) { "s" } else { "n" },
@@ -352,7 +360,7 @@ impl Ctx {
         for k in 0..ops.len() {
             let (name, v) = (ops[k].0, ops[k].1.as_str());
             let class = self.known_both(&u, name, v);
-            let before = impl_api(&u);
+            let before = std::panic::catch_unwind(std::panic::AssertUnwindSafe(|| impl_api(&u))).unwrap_or_default();
             let step = impl_step(&u, name, v);
             let spec = self.spec_after(href, &ops[..=k]);
             let human = format!("{}   [{:?} {}]", case07(href, &ops[..=k]), href, ops[..=k].iter().map(|(n, v)| format!(".{} = {:?}", n, v)).collect::<Vec<_>>().join(" "));
@@ -462,6 +470,45 @@ fn random_value(rng: &mut Rng, values: &[&'static str]) -> String {
     }
 }
 
+/// the components of the URL itself, as they are and in another case (the setters have
+/// "same value" shortcuts; re-assigning what is there is the common use)
+fn own_values(u: &Url) -> Vec<String> {
+    let parts: Vec<String> = std::panic::catch_unwind(std::panic::AssertUnwindSafe(|| {
+        vec![
+            u.scheme().to_string(),
+            u.username().to_string(),
+            u.password().unwrap_or("").to_string(),
+            u.host_str().unwrap_or("").to_string(),
+            u.port().map(|p| p.to_string()).unwrap_or_default(),
+            u.port_or_known_default().map(|p| p.to_string()).unwrap_or_default(),
+            u.path().to_string(),
+            u.query().unwrap_or("").to_string(),
+            u.fragment().unwrap_or("").to_string(),
+            url::quirks::host(u).to_string(),
+        ]
+    }))
+    .unwrap_or_default();
+    let mut v: Vec<String> = Vec::new();
+    for p in parts.into_iter().filter(|p| !p.is_empty()) {
+        for q in [p.clone(), p.to_ascii_uppercase(), p.to_ascii_lowercase()] {
+            if !v.contains(&q) {
+                v.push(q);
+            }
+        }
+    }
+    v
+}
+fn value_for(rng: &mut Rng, values: &[&'static str], u: &Url) -> String {
+    if rng.chance(1, 10) {
+        let own = own_values(u);
+        if !own.is_empty() {
+            let o = rng.pick(&own).clone();
+            return if rng.chance(1, 4) { mutate_string(rng, &o) } else { o };
+        }
+    }
+    random_value(rng, values)
+}
+
 fn random_start(rng: &mut Rng, starts: &[String]) -> (String, Url) {
     if rng.chance(1, 2) {
         let s = random_url_string(rng);
@@ -544,6 +591,12 @@ fn run_model_streams(cx: &mut Ctx, args: &Args) {
                     cx.judge_step(s, name, v);
                 }
             }
+            for v in &own_values(&u) {
+                let (_, differs) = cx.model_step("exh-start-x-setter-x-own-component", &u, name, v);
+                if differs {
+                    cx.judge_step(s, name, v);
+                }
+            }
         }
     }
     cx.rep.exhaustive.push(format!("{} start URLs x 10 setters x {} values (model <-> implementation)", starts.len(), values.len()));
@@ -558,7 +611,7 @@ fn run_model_streams(cx: &mut Ctx, args: &Args) {
         let len = 1 + rng.below(6);
         for _ in 0..len {
             let name = if rng.chance(1, 25) { "href" } else { QUIRK_SETTERS[rng.below(9)] };
-            let v = random_value(&mut rng, &values);
+            let v = value_for(&mut rng, &values, &u);
             let cur = u.as_str().to_string();
             let (nu, differs) = cx.model_step("history", &u, name, &v);
             if differs {
@@ -585,6 +638,14 @@ fn run_standard(cx: &mut Ctx, args: &Args) {
     let values = value_pool();
     let starts = all_starts();
 
+    // stored cases
+    if let Ok(txt) = std::fs::read_to_string(format!("{}/C07/cases.txt", args.file)) {
+        for l in txt.lines().filter(|l| l.starts_with("set07 ")) {
+            if let Some((href, ops)) = parse_case07(l) {
+                cx.standard_case("std-corpus", &href, &ops);
+            }
+        }
+    }
     // the WPT setter vectors: implementation vs specification model
     if let Ok(txt) = std::fs::read_to_string("/repo/url/tests/setters_tests.json") {
         if let Ok(serde_json::Value::Object(o)) = serde_json::from_str::<serde_json::Value>(&txt) {
@@ -609,25 +670,30 @@ fn run_standard(cx: &mut Ctx, args: &Args) {
                     cx.standard_case("std-exh-pool", s, &[(*name, v.to_string())]);
                 }
             }
+            if let Ok(u) = Url::parse(s) {
+                for v in own_values(&u) {
+                    cx.standard_case("std-exh-own-component", s, &[(*name, v)]);
+                }
+            }
         }
     }
     // fixed seed: the verdict on an unchanged tree must not depend on VERIF_SEED
     let mut rng = Rng::new(0xC07);
     let n = if thorough { 600_000 } else { 60_000 };
     for _ in 0..n {
-        let (href, _) = random_start(&mut rng, &starts);
+        let (href, u) = random_start(&mut rng, &starts);
         let name = *rng.pick(&ALL_SETTERS);
-        let v = random_value(&mut rng, &values);
+        let v = value_for(&mut rng, &values, &u);
         cx.standard_case("std-differential", &href, &[(name, v)]);
     }
     let n = if thorough { 100_000 } else { 10_000 };
     for _ in 0..n {
-        let (href, _) = random_start(&mut rng, &starts);
+        let (href, u) = random_start(&mut rng, &starts);
         let len = 1 + rng.below(6);
         let ops: Vec<(&'static str, String)> = (0..len)
             .map(|_| {
                 let name = if rng.chance(1, 25) { "href" } else { QUIRK_SETTERS[rng.below(9)] };
-                (name, random_value(&mut rng, &values))
+                (name, value_for(&mut rng, &values, &u))
             })
             .collect();
         cx.standard_case("std-histories", &href, &ops);
